@@ -1339,3 +1339,81 @@ def chk_childpos(ctx, m, cfg):
 
 
 INDEXOPS["child-pos"] = (chk_childpos, ["C13"])
+
+
+def _posToCell_case(args):
+    c, p, k, al = args
+    m = _WM
+    f = m.fn("childPosToCell")
+    qk, pk, ck, ok_ = f.arg_index("childPos"), f.arg_index("parent"), f.arg_index("childRes"), f.arg_index("child")
+    try:
+        al = [list(a) for a in al]
+        # the parent: the input's upper fields and digits 1..p, resolution p, digits p+1..15 = 7
+        par = LV.input()
+        tab = list(par.tab)
+        for d in range(p + 1, 16):
+            tab[15 - d] = tuple(7 for _ in range(16))
+        par = LV(64, 0, tab)
+        kl = lanes.lanes_of(p << RES_OFF)
+        ml = lanes.lanes_of(0xF << RES_OFF)
+        par = LV(64, 0, [tuple((v & ~ml[j] & 7) | kl[j] for v in par.tab[j]) for j in range(NL)])
+        # the position: the rank of the child whose digits p+1..c are the input lanes (see chk_childpos)
+        if k is None:
+            pos = lanes.LS(0, {15 - r: tuple(x * 7 ** (c - r) for x in range(8)) for r in range(p + 1, c + 1)})
+        elif k == 0:
+            pos = 0
+        else:
+            ln = {15 - k: tuple((x - 2) * 7 ** (c - k) for x in range(8))}
+            for r in range(k + 1, c + 1):
+                ln[15 - r] = tuple(x * 7 ** (c - r) for x in range(8))
+            pos = lanes.LS(_pent_children(c - k), ln)
+        ev = lanes.Evaluator(m, al)
+        ev.merge = True
+        ev.models["isPentagon"] = _ispent_model(k is not None)
+        a = [None] * len(f.args)
+        a[qk], a[pk], a[ck], a[ok_] = pos, par, c, lanes.argptr(ok_)
+        paths = ev.run("childPosToCell", a)
+
+        def lane(j, x):
+            if j <= 14:
+                return x if 15 - j <= c else 7
+            mk, vl = _field_lane(RES_OFF, RES_W, c, j)
+            return (x & ~mk & 7) | vl
+        for pth in paths:
+            wit = sum(pth.allowed[j][0] << (3 * j) for j in range(NL))
+            if pth.ret != 0:
+                return 1, ("returns %s for the position of a valid child" % pth.ret, wit, (c, p, k)), None
+            st_ = pth.stored(ok_)
+            d = lanes.diff_lv(st_, lane)
+            for j in range(NL):
+                for x in pth.allowed[j]:
+                    if d.tab[j][x * 2]:
+                        wit = (wit & ~(7 << (3 * j))) | (x << (3 * j))
+                        got = st_.tab[j][x * 2] if isinstance(st_, LV) else (st_ >> (3 * j)) & 7
+                        return 1, ("for the position of the child with digit %d = %d the result has %d in that lane" % (15 - j, x, got), wit, (c, p, k)), None
+    except Shape as e:
+        return 0, None, "childRes=%d parentRes=%d family %s: %s" % (c, p, k, e)
+    return 1, None, None
+
+
+def chk_postocell(ctx, m, cfg):
+    fname = "childPosToCell"
+    f = m.fn(fname)
+    text = ("given the RANK of a valid child (as decided for cellToChildPos) and its parent, childPosToCell succeeds and stores exactly that child: parent bits kept, resolution "
+            "= childRes, digits p+1..c = the child's digits; so the two functions are mutually inverse on the children and their positions")
+    results = _pmap(_posToCell_case, list(_childpos_cases()), m)
+    for r in results:
+        if r[2]:
+            raise Shape(r[2])
+    bad = next((r[1] for r in results if r[1]), None)
+    n = sum(r[0] for r in results)
+    if bad:
+        msg, wit, (c, p, k) = bad
+        ctx.violation(RULE, "childPosToCell:inverse", "childPosToCell(rank of %s, parentRes %d, childRes %d): %s; documented: %s" % (fmt_digits(wit), p, c, msg, text), f.where(),
+                      {"function": fname, "witness": "0x%x" % wit, "config": cfg})
+    else:
+        ctx.ok(RULE, {"function": fname, "cases": n, "config": cfg, "inputs_covered": "the positions of all valid children per (childRes, parentRes, pentagon family) case"},
+               "%s: %s (%d cases)" % (fname, text, n))
+
+
+INDEXOPS["pos-to-cell"] = (chk_postocell, ["C13"])
